@@ -17,7 +17,7 @@ RULE = ("Programs with any mix of consumed and unconsumed top-level names, alias
         "other statement references the blueprint must contain exactly one empty constant combinator described "
         "`<name> (output anchor)` (unless the producer is itself a constant combinator) on whose network the result's "
         "own signal (each member, for a bundle) reads the reference value for every valuation; a combinator "
-        "computing a named arithmetic/decider result must carry the name and the declaration line in its "
+        "computing a named arithmetic/decider result or a bundle operation must carry the name and the declaration line in its "
         "description; every typed constant declaration must appear as a constant combinator labelled with its "
         "name and value; consumed names must not get anchors of their own. Non-trivial: at least two unconsumed "
         "names with a non-zero value.")
@@ -52,7 +52,7 @@ def build(rng):
         nm = "n%d" % k
         a, b = rng.choice(names), rng.choice(names)
         form = rng.choice(["arith", "arith", "decider", "sel", "alias", "const", "merge", "memread", "call", "bundle", "proj",
-                           "dup", "dup", "foldcall", "subexpr", "coord", "coordnamed"])
+                           "dup", "dup", "foldcall", "subexpr", "coord", "coordnamed", "bundleop"])
         if form == "dup":
             # the same expression as an earlier named result: the optimiser shares the node, both names stay visible
             prev = [s_ for s_ in prog if s_[0] in ("sig", "bun") and kinds.get(s_[1]) in ("arith", "decider", "sel", "proj", "bundle", "call")]
@@ -137,6 +137,14 @@ def build(rng):
         elif form == "bundle":
             prog.append(["bun", nm, ["B", [["v", a], ["t", types.fresh(), ["n", rng.randint(1, 50)]]]]])
             kinds[nm] = "bundle"
+            continue
+        elif form == "bundleop":
+            # a bundle computed by one each-combinator: that combinator carries the name and the line
+            prevb = [s_[1] for s_ in prog if s_[0] == "bun" and kinds.get(s_[1]) == "bundle"]
+            lit = ["B", [["v", a], ["t", types.fresh(), ["n", rng.randint(1, 50)]]]]
+            left = ["v", rng.choice(prevb)] if prevb and rng.random() < 0.5 else lit
+            prog.append(["bun", nm, ["bb", rng.choice(["+", "*", "-"]), left, ["n", rng.randint(2, 7)]]])
+            kinds[nm] = "bundleop"
             continue
         else:
             prog.append(["sig", nm, ["p", ["v", a], types.fresh()]])
@@ -223,7 +231,7 @@ def run_case(case):
         anc = next(e for e in ents if e["entity_number"] == anchors[0][0])
         if (anc.get("control_behavior") or {}).get("sections"):
             problems.append({"name": n, "what": "anchor is not empty"})
-        if k in ("arith", "decider", "sel"):
+        if k in ("arith", "decider", "sel", "bundleop"):
             pat = re.compile(r"^\[<string>:%d\] %s \(" % (lines[n], re.escape(n)))
             hits = [d for d in descs if d[1] in ("arithmetic-combinator", "decider-combinator") and pat.search(d[2])]
             if not hits:
@@ -231,7 +239,7 @@ def run_case(case):
                                  "line": lines[n], "kind": k,
                                  "similar": [d[2] for d in descs if (" %s " % n) in d[2]][:3]})
     for n in top:
-        if n in refd and n in ex.view.anchors and kinds.get(n) != "bundle":
+        if n in refd and n in ex.view.anchors and kinds.get(n) not in ("bundle", "bundleop"):
             problems.append({"name": n, "what": "consumed name got an output anchor"})
     # values on anchors
     rng = random.Random(case["vseed"])
